@@ -6,7 +6,9 @@ package recover
 // code). Comment-only: no code; visible only with the build tag "verif".
 //
 //@ func (*Recover).EndPost
-//@   property C01 C02 C03 C05 C06 C18 C17
+//@   property C01 C02 C03 C05 C06 C09 C18 C17
+//@   -- C09: a login is announced with the after-auth event (which is what starts the idle clock)
+//@   ensures[C09] login_announced: each Sess.Put("uid", _) => after Fire("After", EventAuth, _, _, _)
 //@   ensures[C17] no_secret_leak: secrets_clean
 //@   -- C05: the password is only changed on the strength of a token that decodes to
 //@   -- exactly 64 bytes whose first half selects the account and whose second half
@@ -19,7 +21,7 @@ package recover
 //@          b64std_ok(RecoverVerifier(u)) &&
 //@          sha512(substr(b64url_dec(val(vals, "GetToken")), 32, 32)) == b64std_dec(RecoverVerifier(u)) &&
 //@          (emits Now() -> ?t :: t <= RecoverExpiry(u))
-//@   ensures[C05] spent_on_use: each Store.Save(?s) -> _ => RecoverSelector(s) == "" && RecoverVerifier(s) == ""
+//@   ensures[C05,C06] spent_on_use: each Store.Save(?s) -> _ => RecoverSelector(s) == "" && RecoverVerifier(s) == ""
 //@   ensures[C06] hash_then_save: each Store.Save(?s) -> _ =>
 //@       before Hash.Generate(?pw) -> (?h, ?he) :: he == nil && Password(s) == h &&
 //@       before Body.Read(PageRecoverEnd) -> (?vals, _) :: pw == val(vals, "GetPassword")
@@ -52,6 +54,9 @@ package recover
 //@           RecoverSelector(s) == b64std(sha512(substr(raw, 0, 32))) &&
 //@           RecoverVerifier(s) == b64std(sha512(substr(raw, 32, 32)))) &&
 //@       (emits Now() -> ?t :: RecoverExpiry(s) == t + r.Config.Modules.RecoverTokenDuration)
+//@   -- C17: the token is mailed to the address on record for the account that was loaded
+//@   -- (then its declared secondary addresses), never to what the requester typed
+//@   ensures[C17] mailed_to_the_account: each Mail.Send(?m) => before Store.Load(_) -> (?u, ?le) :: le == nil && len(m.To) >= 1 && elem(m.To, 0) == Email(u)
 //@   ensures[C05] never_touches_session: !emits Sess.Put(_, _)
 //@   ensures[C18] no_panic: !panics
 //@   ensures[C18] save_error_outcome: each Store.Save(_) -> ?e => e != nil ==> (result == e && !emits Mail.Send(_) && !emits Redirect(_))
